@@ -12,6 +12,7 @@ import (
 	"go/ast"
 	"go/token"
 	"go/types"
+	"golang.org/x/tools/go/cfg"
 )
 
 func init() {
@@ -98,31 +99,58 @@ func ruleC11WriteBack(p *Prog, r *Res) {
 				}
 				return se.Sel.Name
 			}
-			// guarded fields: conjuncts `ot.F == t.F` of conditions that dominate the install (enclosing ifs)
+			// guarded fields: the equality ot.F == t.F is established on every path to the install — by the true edge of
+			// a condition with that conjunct (`if ok && ot.F == t.F { … install … }`) or by the false edge of a
+			// condition with the disjunct ot.F != t.F (`if !ok || ot.F != t.F { return }`)
 			guarded := map[string]bool{}
-			inspectParents(f.Body(), func(x ast.Node, parents []ast.Node) bool {
-				if x != ast.Node(inst) {
-					return true
+			eqField := func(c ast.Expr, op token.Token) string {
+				be, ok := ast.Unparen(c).(*ast.BinaryExpr)
+				if !ok || be.Op != op {
+					return ""
 				}
-				for _, par := range parents {
-					is, ok := par.(*ast.IfStmt)
-					if !ok {
-						continue
+				a, b := fieldOf(be.X, ot), fieldOf(be.Y, tobj)
+				if a == "" {
+					a, b = fieldOf(be.Y, ot), fieldOf(be.X, tobj)
+				}
+				if a != "" && a == b {
+					return a
+				}
+				return ""
+			}
+			for i := 0; i < st.NumFields(); i++ {
+				name := st.Field(i).Name()
+				gfl := p.Flow(f)
+				establishes := false
+				gfl.EdgeOK = func(b *cfg.Block, succ int) bool {
+					if len(b.Succs) != 2 || len(b.Nodes) == 0 {
+						return true
 					}
-					for _, c := range conjuncts(is.Cond) {
-						if be, ok := ast.Unparen(c).(*ast.BinaryExpr); ok && be.Op == token.EQL {
-							a, b := fieldOf(be.X, ot), fieldOf(be.Y, tobj)
-							if a == "" {
-								a, b = fieldOf(be.Y, ot), fieldOf(be.X, tobj)
+					cond, ok := b.Nodes[len(b.Nodes)-1].(ast.Expr)
+					if !ok {
+						return true
+					}
+					if succ == 0 {
+						for _, c := range conjuncts(cond) {
+							if eqField(c, token.EQL) == name {
+								establishes = true
+								return false
 							}
-							if a != "" && a == b {
-								guarded[a] = true
+						}
+					} else {
+						for _, c := range disjuncts(cond) {
+							if eqField(c, token.NEQ) == name {
+								establishes = true
+								return false
 							}
 						}
 					}
+					return true
 				}
-				return false
-			})
+				res := gfl.Reach([]Pt{gfl.Entry()}, func(x ast.Node) bool { return x == ast.Node(inst) }, nil)
+				if !res.Found && establishes {
+					guarded[name] = true
+				}
+			}
 			for i := 0; i < st.NumFields(); i++ {
 				fld := st.Field(i)
 				if fld.Embedded() {
